@@ -333,6 +333,10 @@ func DecodeExpression(expr hcl.Expression, ctx *hcl.EvalContext, val interface{}
 		return diags
 	}
 
+	// Go values cannot carry cty marks, and gocty panics when given a marked
+	// value, so the marks are dropped here.
+	srcVal, _ = srcVal.UnmarkDeep()
+
 	err = gocty.FromCtyValue(srcVal, val)
 	if err != nil {
 		diags = append(diags, &hcl.Diagnostic{
